@@ -1469,3 +1469,35 @@ def sk_make_pipeline(I, args, kwargs):
     o = AbstractObj("sklearn_pipeline", isa=("Pipeline", "BaseEstimator"))
     o.parts = list(args)
     return o
+
+
+@lib("sklearn.metrics._regression._check_reg_targets")
+def sk_check_reg_targets(I, args, kwargs):
+    """sklearn 0.24 _check_reg_targets(y_true, y_pred, multioutput): 1-d inputs become (n, 1) columns, values unchanged"""
+    USED.add("sklearn _check_reg_targets: returns its two arrays as 2-d columns with unchanged values (assumed)")
+    from .libnp import to_arr
+
+    def col(v):
+        a = to_arr(I, v.values if isinstance(v, SSeries) else v)
+        if a.ndim == 1:
+            return SArr((a.len, 1), lambda i, j: a.fn(i), "real", "ndarray")
+        return a
+    yt, yp = col(args[0]), col(args[1])
+    mo = args[2] if len(args) > 2 else kwargs.get("multioutput")
+    return SList(["continuous", yt, yp, mo], "tuple")
+
+
+@lib("sklearn.utils.validation.check_consistent_length", "sklearn.utils.check_consistent_length")
+def sk_ccl(I, args, kwargs):
+    return None
+
+
+for _p in ("sklearn.metrics.mean_absolute_error", "sklearn.metrics.mean_squared_error", "sklearn.metrics.median_absolute_error"):
+    def _mk2(p):
+        def f(I, args, kwargs):
+            USED.add(f"{p}: external aggregate (mean / median of |e| or e^2 per column, then multioutput average), recorded")
+            r = I.ctx.fresh_real(p.split(".")[-1])
+            I.ctx.trace.append(Event(None, "sk:" + p.split(".")[-1], list(args), dict(kwargs), r, getattr(I.ctx, "loop_k", None)))
+            return r
+        return f
+    LIB[_p] = _mk2(_p)
